@@ -132,16 +132,18 @@ HGettersCase(p) ==
    desc |-> [area |-> "hgetters"] @@ p]
 
 \* ---- HDst: every declared size of every header-tag kind (C05 / C15 for the header crate) ------------------------------
-HDstParams == { [kind |-> n, size |-> s] : n \in GettableKinds, s \in 0..40 }
-HDstTag(name, size) ==
+\* fl: the tag's flags word (0 required, 1 optional) - nothing about sizes may depend on it
+HDstParams == { [kind |-> n, size |-> s, fl |-> f] : n \in GettableKinds, s \in 0..40, f \in {0, 1} }
+HDstTagF(name, size, fl) ==
   LET room == RoundUp8(Max(8, Min(size, 48)))
-      t == [i \in 1..room |-> IF i <= 2 THEN U16Bytes(HeaderKind(name).id)[i] ELSE IF i <= 4 THEN 0
+      t == [i \in 1..room |-> IF i <= 2 THEN U16Bytes(HeaderKind(name).id)[i] ELSE IF i <= 4 THEN U16Bytes(fl)[i - 2]
                               ELSE IF i <= 8 THEN U32Bytes(size)[i - 4] ELSE IF i <= size THEN FillA(i - 1) ELSE PadByte] IN
   CASE name = "console" /\ room >= 12 -> Override(t, 8, U32Bytes(1))
     [] name = "relocatable" /\ room >= 24 -> Override(t, 20, U32Bytes(2))
     [] OTHER -> t
+HDstTag(name, size) == HDstTagF(name, size, 0)
 HDstCase(p) ==
-  [mem |-> HdrImage(0, <<HDstTag(p.kind, p.size), Nbr, HTag(0, 0, 8, 0)>>), al |-> 0,
+  [mem |-> HdrImage(0, <<HDstTagF(p.kind, p.size, p.fl), Nbr, HTag(0, 0, 8, 0)>>), al |-> 0,
    calls |-> <<[op |-> "hload"]>> \o HReadCalls(p.kind),
    desc |-> [area |-> "hdst"] @@ p]
 
